@@ -200,6 +200,43 @@ Proof.
     [rewrite bool_decide_true by exact E|rewrite bool_decide_false by exact E]; reflexivity.
 Qed.
 
+(* the same four for the general form: (family, prefix) pairs *)
+Lemma fold_wd_lookup_g (wd : list (N * N)) : forall (rb : irib) w key,
+  fold_left (fun rb (q : N * N) => ideal_wd rb w q.1 q.2) wd rb !! key =
+  fold_left (fun acc (q : N * N) => if decide (key = (q.1, q.2, w)) then wdn acc else acc) wd (rb !! key).
+Proof.
+  induction wd as [|q wd IH]; intros rb w key; cbn [fold_left]; [reflexivity|].
+  rewrite IH, ideal_wd_lookup. reflexivity.
+Qed.
+
+Lemma fold_ann_lookup_g (ann : list (N * N)) : forall (rb : irib) w a key,
+  fold_left (fun rb (q : N * N) => ideal_ann rb w q.1 q.2 a) ann rb !! key =
+  fold_left (fun acc (q : N * N) => if decide (key = (q.1, q.2, w)) then Some (true, a) else acc) ann (rb !! key).
+Proof.
+  induction ann as [|q ann IH]; intros rb w a key; cbn [fold_left]; [reflexivity|].
+  rewrite IH, ideal_ann_lookup. reflexivity.
+Qed.
+
+Lemma fold_spec_wd_g (wd : list (N * N)) : forall i k acc,
+  fold_left (spec_step k) (map (fun q : N * N => EWdr (q.1, q.2, i)) wd) acc =
+  fold_left (fun acc (q : N * N) => if decide ((q.1, q.2, i) = k) then wdn acc else acc) wd acc.
+Proof.
+  induction wd as [|q wd IH]; intros i k acc; cbn [fold_left map]; [reflexivity|].
+  rewrite IH. f_equal. cbn [spec_step]. unfold wdn.
+  destruct (decide ((q.1, q.2, i) = k)) as [E|E];
+    [rewrite bool_decide_true by exact E|rewrite bool_decide_false by exact E]; reflexivity.
+Qed.
+
+Lemma fold_spec_ann_g (ann : list (N * N)) : forall a i k acc,
+  fold_left (spec_step k) (map (fun q : N * N => EAnn (q.1, q.2, i) a) ann) acc =
+  fold_left (fun acc (q : N * N) => if decide ((q.1, q.2, i) = k) then Some (true, a) else acc) ann acc.
+Proof.
+  induction ann as [|q ann IH]; intros a i k acc; cbn [fold_left map]; [reflexivity|].
+  rewrite IH. f_equal. cbn [spec_step].
+  destruct (decide ((q.1, q.2, i) = k)) as [E|E];
+    [rewrite bool_decide_true by exact E|rewrite bool_decide_false by exact E]; reflexivity.
+Qed.
+
 Lemma fold_ext {A B} (f g : A -> B -> A) l : (forall a b, f a b = g a b) -> forall a, fold_left f l a = fold_left g l a.
 Proof. intros H. induction l as [|b l IH]; intros a; cbn [fold_left]; [reflexivity|]. rewrite H. apply IH. Qed.
 
@@ -209,17 +246,27 @@ Definition upd_evs (i : N) (u : upd) : list ev := map ev_of_payload (payloads_of
 Lemma ideal_update_same (rb : irib) x i u f p :
   fold_left (spec_step (f, p, i)) (upd_evs i u) (rb !! (f, p, x)) = ideal_update rb x u !! (f, p, x).
 Proof.
-  unfold upd_evs. destruct u as [fam|af ann a wf wd]; cbn [payloads_of ideal_update map fold_left]; [reflexivity|].
-  rewrite map_app, fold_left_app, !map_map. cbn [ev_of_payload p_active p_key p_attrs].
-  rewrite fold_spec_ann, fold_spec_wd, fold_ann_lookup, fold_wd_lookup.
-  set (acc := rb !! (f, p, x)). generalize acc. clear acc. intros acc.
-  rewrite (fold_ext (fun acc q => if decide ((wf, q, i) = (f, p, i)) then wdn acc else acc)
-                    (fun acc q => if decide ((f, p, x) = (wf, q, x)) then wdn acc else acc)).
-  2:{ intros c q. destruct (decide ((wf, q, i) = (f, p, i))) as [E|E], (decide ((f, p, x) = (wf, q, x))) as [E'|E'];
-        try reflexivity; exfalso; [apply E'|apply E]; congruence. }
-  apply fold_ext. intros c q.
-  destruct (decide ((af, q, i) = (f, p, i))) as [E|E], (decide ((f, p, x) = (af, q, x))) as [E'|E'];
-    try reflexivity; exfalso; [apply E'|apply E]; congruence.
+  unfold upd_evs. destruct u as [fam|af ann a wf wd|lax c ff ann a wd]; cbn [payloads_of ideal_update map fold_left]; [reflexivity| |].
+  - rewrite map_app, fold_left_app, !map_map. cbn [ev_of_payload p_active p_key p_attrs].
+    rewrite fold_spec_ann, fold_spec_wd, fold_ann_lookup, fold_wd_lookup.
+    set (acc := rb !! (f, p, x)). generalize acc. clear acc. intros acc.
+    rewrite (fold_ext (fun acc q => if decide ((wf, q, i) = (f, p, i)) then wdn acc else acc)
+                      (fun acc q => if decide ((f, p, x) = (wf, q, x)) then wdn acc else acc)).
+    2:{ intros c0 q. destruct (decide ((wf, q, i) = (f, p, i))) as [E|E], (decide ((f, p, x) = (wf, q, x))) as [E'|E'];
+          try reflexivity; exfalso; [apply E'|apply E]; congruence. }
+    apply fold_ext. intros c0 q.
+    destruct (decide ((af, q, i) = (f, p, i))) as [E|E], (decide ((f, p, x) = (af, q, x))) as [E'|E'];
+      try reflexivity; exfalso; [apply E'|apply E]; congruence.
+  - rewrite map_app, fold_left_app, !map_map. cbn [ev_of_payload p_active p_key p_attrs].
+    rewrite fold_spec_ann_g, fold_spec_wd_g, fold_ann_lookup_g, fold_wd_lookup_g.
+    set (acc := rb !! (f, p, x)). generalize acc. clear acc. intros acc.
+    rewrite (fold_ext (fun acc (q : N * N) => if decide ((q.1, q.2, i) = (f, p, i)) then wdn acc else acc)
+                      (fun acc (q : N * N) => if decide ((f, p, x) = (q.1, q.2, x)) then wdn acc else acc)).
+    2:{ intros c0 q. destruct (decide ((q.1, q.2, i) = (f, p, i))) as [E|E], (decide ((f, p, x) = (q.1, q.2, x))) as [E'|E'];
+          try reflexivity; exfalso; [apply E'|apply E]; congruence. }
+    apply fold_ext. intros c0 q.
+    destruct (decide ((q.1, q.2, i) = (f, p, i))) as [E|E], (decide ((f, p, x) = (q.1, q.2, x))) as [E'|E'];
+      try reflexivity; exfalso; [apply E'|apply E]; congruence.
 Qed.
 
 Lemma fold_const {A B} (l : list B) (a : A) : fold_left (fun acc _ => acc) l a = a.
@@ -228,12 +275,17 @@ Proof. induction l; cbn; auto. Qed.
 (* another identity: the ideal update does not touch it *)
 Lemma ideal_update_other (rb : irib) x0 u f p x : x <> x0 -> ideal_update rb x0 u !! (f, p, x) = rb !! (f, p, x).
 Proof.
-  intros Hne. destruct u as [fam|af ann a wf wd]; cbn [ideal_update]; [reflexivity|].
-  rewrite fold_ann_lookup, fold_wd_lookup.
-  rewrite (fold_ext _ (fun acc _ => acc)), fold_const.
-  2:{ intros c q. destruct (decide ((f, p, x) = (af, q, x0))); [congruence|reflexivity]. }
-  rewrite (fold_ext _ (fun acc _ => acc)), fold_const; [reflexivity|].
-  intros c q. destruct (decide ((f, p, x) = (wf, q, x0))); [congruence|reflexivity].
+  intros Hne. destruct u as [fam|af ann a wf wd|lax c ff ann a wd]; cbn [ideal_update]; [reflexivity| |].
+  - rewrite fold_ann_lookup, fold_wd_lookup.
+    rewrite (fold_ext _ (fun acc _ => acc)), fold_const.
+    2:{ intros c0 q. destruct (decide ((f, p, x) = (af, q, x0))); [congruence|reflexivity]. }
+    rewrite (fold_ext _ (fun acc _ => acc)), fold_const; [reflexivity|].
+    intros c0 q. destruct (decide ((f, p, x) = (wf, q, x0))); [congruence|reflexivity].
+  - rewrite fold_ann_lookup_g, fold_wd_lookup_g.
+    rewrite (fold_ext _ (fun acc _ => acc)), fold_const.
+    2:{ intros c0 q. destruct (decide ((f, p, x) = (q.1, q.2, x0))); [congruence|reflexivity]. }
+    rewrite (fold_ext _ (fun acc _ => acc)), fold_const; [reflexivity|].
+    intros c0 q. destruct (decide ((f, p, x) = (q.1, q.2, x0))); [congruence|reflexivity].
 Qed.
 
 (* another id: the events of the update do not touch its keys *)
@@ -513,27 +565,30 @@ Proof.
   unfold route_monitoring. destruct (sm_peers s !! p) as [pe|] eqn:E; [|cbn; auto].
   destruct u as [u|]; [|cbn; auto]. cbv zeta.
   assert (Hp : id_table s !! p = Some (pe_id pe)) by (rewrite id_table_lookup, E; reflexivity).
-  set (ps1 := match is_eor u with Some f => <[p := MkPeer (pe_eor pe) (pe_pending pe ∖ {[f]}) (pe_id pe)]> (sm_peers s) | None => sm_peers s end).
-  set (lst := match is_eor u with Some _ => all_pending_empty ps1 | None => false end).
-  set (pe1 := match ps1 !! p with Some x => x | None => pe end).
-  set (ps2 := match first_ann_fam u with
-              | Some f => if pe_eor pe1 then <[p := MkPeer (pe_eor pe1) ({[f]} ∪ pe_pending pe1) (pe_id pe1)]> ps1 else ps1
-              | None => ps1 end).
-  assert (H1 : pe_id <$> ps1 = id_table s).
-  { subst ps1. destruct (is_eor u); [|reflexivity]. rewrite fmap_insert. cbn [pe_id]. apply insert_id, Hp. }
-  assert (Hpe1 : pe_id pe1 = pe_id pe).
-  { subst pe1. assert (Hl : (pe_id <$> ps1) !! p = Some (pe_id pe)) by (rewrite H1; exact Hp).
-    rewrite lookup_fmap in Hl. destruct (ps1 !! p); [injection Hl as ->|]; reflexivity. }
-  assert (H2 : pe_id <$> ps2 = id_table s).
-  { subst ps2. destruct (first_ann_fam u); [|exact H1]. destruct (pe_eor pe1); [|exact H1].
-    rewrite fmap_insert. cbn [pe_id]. rewrite H1, Hpe1. apply insert_id, Hp. }
-  destruct lst eqn:El.
-  - assert (He : is_Some (is_eor u)) by (subst lst; destruct (is_eor u); [eauto|discriminate]).
-    destruct (sm_phase s) eqn:Eph; cbn [fst snd sm_phase out_evs evs_of_update]; rewrite ?id_table_mk, ?Eph;
-      repeat split; try assumption; try reflexivity.
-    unfold upd_evs. rewrite (payloads_eor _ _ He). reflexivity.
-  - destruct (sm_phase s) eqn:Eph; cbn [fst snd sm_phase out_evs evs_of_update]; rewrite ?id_table_mk, ?Eph;
-      repeat split; try assumption; reflexivity.
+  remember (sm_phase s) as ph eqn:Eph.
+  assert (H1 : forall o : option N,
+             pe_id <$> (match o with Some f => <[p := MkPeer (pe_eor pe) (pe_pending pe ∖ {[f]}) (pe_id pe)]> (sm_peers s) | None => sm_peers s end)
+             = id_table s).
+  { intros [f|]; [|reflexivity]. rewrite fmap_insert. cbn [pe_id]. apply insert_id, Hp. }
+  assert (Hgen : forall ps1 : gmap pph peer, pe_id <$> ps1 = id_table s ->
+            let pe1 := match ps1 !! p with Some x => x | None => pe end in
+            pe_id <$> (match first_ann_fam u with
+                       | Some f => if pe_eor pe1 then <[p := MkPeer (pe_eor pe1) ({[f]} ∪ pe_pending pe1) (pe_id pe1)]> ps1 else ps1
+                       | None => ps1 end) = id_table s).
+  { intros ps1 Hps1 pe1.
+    assert (Hpe1 : pe_id pe1 = pe_id pe).
+    { subst pe1. assert (Hl : (pe_id <$> ps1) !! p = Some (pe_id pe)) by (rewrite Hps1; exact Hp).
+      rewrite lookup_fmap in Hl. destruct (ps1 !! p); [injection Hl as ->|]; reflexivity. }
+    destruct (first_ann_fam u); [|exact Hps1]. destruct (pe_eor pe1); [|exact Hps1].
+    rewrite fmap_insert. cbn [pe_id]. rewrite Hps1, Hpe1. apply insert_id, Hp. }
+  specialize (Hgen _ (H1 (eor_in ph u))). cbv zeta in Hgen.
+  destruct ph; cbn [fst snd sm_phase out_evs evs_of_update]; rewrite ?id_table_mk;
+    try (repeat split; try assumption; try exact (H1 _); reflexivity).
+  destruct (eor_in PDump u) as [f|] eqn:He.
+  - destruct (all_pending_empty _); cbn [fst snd sm_phase out_evs evs_of_update]; rewrite ?id_table_mk;
+      repeat split; try assumption; try exact (H1 (Some f)); try reflexivity.
+    unfold upd_evs. rewrite (payloads_eor (pe_id pe) u) by (rewrite He; eauto). reflexivity.
+  - cbn [fst snd sm_phase out_evs evs_of_update]; rewrite ?id_table_mk; repeat split; try assumption; reflexivity.
 Qed.
 
 Lemma elem_of_term_ids s i :
@@ -1183,7 +1238,12 @@ Qed.
       the premise f < 4 on the key asked about can be dropped              *)
 (* ================================================================== *)
 
-Definition upd_fams_ok (u : upd) : bool := match u with UEor _ => true | URoutes af _ _ _ _ => af <? 4 end.
+Definition upd_fams_ok (u : upd) : bool :=
+  match u with
+  | UEor _ => true
+  | URoutes af _ _ _ _ => af <? 4
+  | UGen _ _ _ ann _ _ => forallb (fun fp : N * N => fp.1 <? 4) ann
+  end.
 Definition op_fams_ok (o : wop) : bool :=
   match o with
   | WMsg _ (MRoute _ (Some u)) | WBgpUpdate _ (Some u) => upd_fams_ok u
@@ -1201,13 +1261,22 @@ Qed.
 
 Lemma ideal_update_fams rb x0 u : upd_fams_ok u = true -> rib_fams rb -> rib_fams (ideal_update rb x0 u).
 Proof.
-  intros Hu H f p x Hn. destruct u as [fam|af ann a wf wd]; cbn [ideal_update] in Hn; [apply (H f p x Hn)|].
-  cbn [upd_fams_ok] in Hu. apply N.ltb_lt in Hu.
-  destruct (decide (f = af)) as [->|Hne]; [exact Hu|]. apply (H f p x). intros E. apply Hn.
-  rewrite fold_ann_lookup, fold_wd_lookup, E.
-  rewrite (fold_ext _ (fun acc _ => acc)), fold_const.
-  2:{ intros c q. destruct (decide ((f, p, x) = (af, q, x0))); [congruence|reflexivity]. }
-  clear Hn. induction wd as [|q wd IH]; cbn [fold_left]; [reflexivity|]. destruct (decide _); exact IH.
+  intros Hu H f p x Hn. destruct u as [fam|af ann a wf wd|lax c ff ann a wd]; cbn [ideal_update] in Hn; [apply (H f p x Hn)| |].
+  - cbn [upd_fams_ok] in Hu. apply N.ltb_lt in Hu.
+    destruct (decide (f = af)) as [->|Hne]; [exact Hu|]. apply (H f p x). intros E. apply Hn.
+    rewrite fold_ann_lookup, fold_wd_lookup, E.
+    rewrite (fold_ext _ (fun acc _ => acc)), fold_const.
+    2:{ intros c0 q. destruct (decide ((f, p, x) = (af, q, x0))); [congruence|reflexivity]. }
+    clear Hn. induction wd as [|q wd IH]; cbn [fold_left]; [reflexivity|]. destruct (decide _); exact IH.
+  - cbn [upd_fams_ok] in Hu.
+    destruct (decide (f < 4)) as [Hlt|Hge]; [exact Hlt|]. apply (H f p x). intros E. apply Hn.
+    rewrite fold_ann_lookup_g, fold_wd_lookup_g, E.
+    assert (Hw : fold_left (fun acc (q : N * N) => if decide ((f, p, x) = (q.1, q.2, x0)) then wdn acc else acc) wd None = None).
+    { clear. induction wd as [|q wd IH]; cbn [fold_left]; [reflexivity|]. destruct (decide _); exact IH. }
+    rewrite Hw. clear Hn Hw. induction ann as [|q ann IH]; cbn [fold_left]; [reflexivity|].
+    cbn [forallb] in Hu. apply andb_true_iff in Hu as [Hq Hu]. apply N.ltb_lt in Hq.
+    destruct (decide ((f, p, x) = (q.1, q.2, x0))) as [Eq|_]; [exfalso; apply Hge; injection Eq as -> _ _; exact Hq|].
+    apply IH, Hu.
 Qed.
 
 Lemma sstep_fams sw o : op_fams_ok o = true -> rib_fams (s_rib sw) -> rib_fams (s_rib (sstep sw o).1).
@@ -1233,9 +1302,14 @@ Qed.
 Lemma upd_evs_ann_fam id u key a : upd_fams_ok u = true -> EAnn key a ∈ upd_evs id u -> k_fam key < 4.
 Proof.
   intros Hu Hin. unfold upd_evs in Hin. apply elem_of_list_fmap in Hin as (pl & Hpl & Hin).
-  destruct u as [fam|af ann a' wf wd]; cbn [payloads_of] in Hin; [inversion Hin|]. cbn [upd_fams_ok] in Hu. apply N.ltb_lt in Hu.
-  apply elem_of_app in Hin as [Hin|Hin]; apply elem_of_list_fmap in Hin as (q & -> & _); cbn in Hpl; [discriminate|].
-  injection Hpl as -> _. exact Hu.
+  destruct u as [fam|af ann a' wf wd|lax c ff ann a' wd]; cbn [payloads_of] in Hin; [inversion Hin| |].
+  - cbn [upd_fams_ok] in Hu. apply N.ltb_lt in Hu.
+    apply elem_of_app in Hin as [Hin|Hin]; apply elem_of_list_fmap in Hin as (q & -> & _); cbn in Hpl; [discriminate|].
+    injection Hpl as -> _. exact Hu.
+  - cbn [upd_fams_ok] in Hu.
+    apply elem_of_app in Hin as [Hin|Hin]; apply elem_of_list_fmap in Hin as (q & -> & Hq); cbn in Hpl; [discriminate|].
+    injection Hpl as -> _. cbn [k_fam fst].
+    rewrite forallb_forall in Hu. apply N.ltb_lt, Hu, elem_of_list_In, Hq.
 Qed.
 
 Lemma wstep_ann_fam w o key a : op_fams_ok o = true -> EAnn key a ∈ step_evs (wstep w o).2 -> k_fam key < 4.
